@@ -7,6 +7,7 @@ import (
 	"math"
 	"reflect"
 	"sort"
+	"sync"
 
 	"github.com/bmeg/grip/engine/logic"
 	"github.com/bmeg/grip/gdbi"
@@ -977,6 +978,20 @@ func (b both) Process(ctx context.Context, man gdbi.Manager, in gdbi.InPipe, out
 		for i, p := range procs {
 			p.Process(ctx, man, chanIn[i], chanOut[i])
 		}
+		// forward the results of both directions while the input is still being
+		// fed: a direction whose output buffer is full stops reading its input,
+		// so draining only after the input has ended blocks the whole pipeline
+		// as soon as one direction produces more rows than the buffers hold.
+		var wg sync.WaitGroup
+		for i := range procs {
+			wg.Add(1)
+			go func(ch chan gdbi.Traveler) {
+				defer wg.Done()
+				for c := range ch {
+					out <- c
+				}
+			}(chanOut[i])
+		}
 		for t := range in {
 			if t.IsSignal() {
 				out <- t
@@ -989,11 +1004,7 @@ func (b both) Process(ctx context.Context, man gdbi.Manager, in gdbi.InPipe, out
 		for _, ch := range chanIn {
 			close(ch)
 		}
-		for i := range procs {
-			for c := range chanOut[i] {
-				out <- c
-			}
-		}
+		wg.Wait()
 	}()
 	return ctx
 }
